@@ -702,7 +702,23 @@ func (s *sys) Step(i int) bfs.StepResult {
 	}
 
 	treesEqual := equalLines(after, tafter)
-	if !treesEqual {
+
+	if treesEqual {
+		// the node-graph dumps agree; also compare what the public API shows
+		// (hard-link classes are computed with SameFile there, i.e. from file ids)
+		if pa, ta := s.apiDump(s.P, s.users), s.apiDump(s.T, s.tusers); !equalLines(pa, ta) {
+			treesEqual = false
+			ot, or := diffSets(ta, pa)
+
+			for _, l := range ot {
+				det.DumpDiff = append(det.DumpDiff, "twin only (public API walk): "+l)
+			}
+
+			for _, l := range or {
+				det.DumpDiff = append(det.DumpDiff, "real only (public API walk): "+l)
+			}
+		}
+	} else {
 		ot, or := diffSets(tafter, after)
 		for _, l := range ot {
 			det.DumpDiff = append(det.DumpDiff, "twin only: "+l)
@@ -1026,4 +1042,22 @@ func (s *sys) rootSearchable(a *actor, dump []string) string {
 	}
 
 	return res
+}
+
+// apiDump walks the whole tree of a parent through the public API as the
+// administrator (Lstat, ReadDir, ReadFile, SameFile) and restores the
+// parent's current user afterwards.
+func (s *sys) apiDump(v *memfs.MemFS, users map[string]avfs.UserReader) []string {
+	cur := v.User()
+	_ = v.SetUser(users["root"])
+
+	var out []string
+
+	if k, msg := fsx.Guard(func() { out = fsx.Dump(v, "/", fsx.DumpOpts{}) }); k != "" {
+		out = []string{"!dump " + k + " " + msg}
+	}
+
+	_ = v.SetUser(cur)
+
+	return out
 }
